@@ -1023,17 +1023,20 @@ func (d *decoderState) consumeObject(flags *jsonwire.ValueFlags, pos, depth int)
 		if !d.Flags.Get(jsonflags.AllowDuplicateNames) && !names.insertQuoted(quotedName, flags2.IsVerbatim()) {
 			return pos - n, wrapWithObjectName(ErrDuplicateName, quotedName)
 		}
+		// The buffer may be moved or reallocated by any subsequent fetch,
+		// so remember the name by its absolute offset instead of by a slice.
+		nameOffset := d.baseOffset + int64(pos-n)
 
 		// Handle after name.
 		pos += jsonwire.ConsumeWhitespace(d.buf[pos:])
 		if d.needMore(pos) {
 			if pos, err = d.consumeWhitespace(pos); err != nil {
-				return pos, wrapWithObjectName(err, quotedName)
+				return pos, wrapWithObjectName(err, d.quotedNameAt(nameOffset, n))
 			}
 		}
 		if d.buf[pos] != ':' {
 			err := jsonwire.NewInvalidCharacterError(d.buf[pos:], "after object name (expecting ':')")
-			return pos, wrapWithObjectName(err, quotedName)
+			return pos, wrapWithObjectName(err, d.quotedNameAt(nameOffset, n))
 		}
 		pos++
 
@@ -1041,12 +1044,12 @@ func (d *decoderState) consumeObject(flags *jsonwire.ValueFlags, pos, depth int)
 		pos += jsonwire.ConsumeWhitespace(d.buf[pos:])
 		if d.needMore(pos) {
 			if pos, err = d.consumeWhitespace(pos); err != nil {
-				return pos, wrapWithObjectName(err, quotedName)
+				return pos, wrapWithObjectName(err, d.quotedNameAt(nameOffset, n))
 			}
 		}
 		pos, err = d.consumeValue(flags, pos, depth)
 		if err != nil {
-			return pos, wrapWithObjectName(err, quotedName)
+			return pos, wrapWithObjectName(err, d.quotedNameAt(nameOffset, n))
 		}
 
 		// Handle after value.
@@ -1067,6 +1070,14 @@ func (d *decoderState) consumeObject(flags *jsonwire.ValueFlags, pos, depth int)
 			return pos, jsonwire.NewInvalidCharacterError(d.buf[pos:], "after object value (expecting ',' or '}')")
 		}
 	}
+}
+
+// quotedNameAt returns the n bytes of a quoted object name
+// that starts at the absolute offset within the input stream.
+// The name must still be within the unread portion of the buffer.
+func (d *decodeBuffer) quotedNameAt(offset int64, n int) []byte {
+	i := int(offset - d.baseOffset)
+	return d.buf[i : i+n]
 }
 
 // consumeArray consumes a single JSON array starting at d.buf[pos:].
